@@ -208,6 +208,44 @@ def observe(ctx: fw.Ctx, names):
         except ValueError:
             ctx.count("rejected_paths")
 
+    # a quoted name containing dots next to the nested path it must not be confused with: the path is
+    # split only at unquoted dots, also in non-final position and when the nested attributes exist
+    dotted = [n for n in names if "." in n and all(is_nix_ident(p) for p in n.split("."))][: 60 if ctx.quick else 600]
+    for s in ["a.b", "x.y.z", "n.k"] + dotted:
+        parts = s.split(".")
+        q = render_seg(s)
+        nested = "{ " + " = { ".join(parts) + " = { d = 1; }; " + "}; " * (len(parts) - 1) + "}"
+        dotted_doc = "{ " + s + ".d = 1; }"
+        for doc in (nested, dotted_doc):
+            try:
+                t0 = cstread.plain(cstread.read_doc_tree(doc))
+            except Exception:  # noqa: BLE001
+                continue
+            ctx.case({"doc": doc, "name": s, "confusable": True}, True)
+            for op, path, want in (
+                ("set", q + ".c", {**t0, s: {"c": "2"}}), ("set", q, {**t0, s: "2"}), ("rm", q + ".d", KeyError), ("rm", q, KeyError),
+            ):
+                try:
+                    out = M.set_value(parse(doc), path, "2") if op == "set" else M.remove_value(parse(doc), path)
+                except (KeyError, ValueError) as exc:
+                    if want is not KeyError:
+                        ctx.fail({"clause": "quoted-dot-split", "op": op, "outcome": "refused"}, {"doc": doc, "path": path, "op": op},
+                                 f"{op} {path!r} on {doc!r} raised {type(exc).__name__}: {exc}")
+                    continue
+                except Exception as exc:  # noqa: BLE001
+                    ctx.fail({"clause": "quoted-dot-split", "op": op, "outcome": exc_class(exc)}, {"doc": doc, "path": path, "op": op},
+                             f"{op} {path!r} on {doc!r} raised {type(exc).__name__}: {exc}")
+                    continue
+                try:
+                    tree = cstread.plain(cstread.read_doc_tree(out))
+                except cstread.Duplicate as exc:
+                    tree = ("duplicate", str(exc))
+                if want is KeyError or tree != want:
+                    ctx.fail({"clause": "quoted-dot-split", "op": op, "outcome": "wrong-attribute"},
+                             {"doc": doc, "path": path, "op": op, "output": out},
+                             f"{op} {path!r} on {doc!r}: the quoted name {s!r} is one attribute, distinct from the nested "
+                             f"path {s}; got {out!r}" + ("" if want is KeyError else f", expected tree {want!r}"))
+
     # spelling equivalence (both directions), on a sample of names Nix can spell two ways
     spell = [n for n in names if n and is_nix_ident(n)][: 400 if ctx.quick else 4000]
     for s in spell:
